@@ -269,6 +269,35 @@ func c20CPU(ctx *Ctx) {
 	}
 	ctx.Eval()
 	ctx.Add("quota_values_checked", int(maxQ-1000+1))
+	// other CFS periods (kubelet cpuCFSQuotaPeriod accepts 1 ms .. 1 s; other runtimes any --cpu-period): the kubelet
+	// encodes quota = floor(m*period/1000), at least 1000. The reconstruction rounds quota*1000/period to the nearest
+	// integer, so it is exact wherever the encoding lost less than half a mCPU (period >= 2000) and the minimum-quota
+	// clamp was not applied (m*period >= 10^6, which is the "10 mCPU" of the default period); monotone in m always.
+	for _, period := range []int64{1000000, 500000, 250000, 200000, 100500, 100001, 99999, 50000, 33333, 25000, 12500, 10000, 5000, 2500, 2000} {
+		prevP := int64(-1)
+		for m := int64(1); m <= c20MaxMilli; m++ {
+			q := m * period / 1000
+			clamped := q < 1000
+			if clamped {
+				q = 1000
+			}
+			lim := kubernetes.QuotaToMilliCPU(q, period)
+			if !clamped && m >= 10 && lim != m {
+				ctx.Violate("quota_exact_period", fmt.Sprintf("period-%d", period), c20Case{Kind: "cpu", M: m},
+					"limit %dm -> quota %d/%d -> %dm: not exact", m, q, period, lim)
+				break
+			}
+			if lim < prevP {
+				ctx.Violate("quota_monotone_period", fmt.Sprintf("period-%d", period), c20Case{Kind: "cpu", M: m},
+					"period %d: limit %dm reconstructs to %dm but %dm reconstructed to %dm", period, m, lim, m-1, prevP)
+				break
+			}
+			prevP = lim
+		}
+		ctx.Eval()
+		ctx.Add("quota_values_checked_other_periods", int(c20MaxMilli))
+		ctx.Count("cfs_periods_checked")
+	}
 }
 
 func c20MilliClass(m int64) string {
